@@ -239,7 +239,7 @@ def run_case(case):
 
 
 # ------------------------------------------------------------------------------------------------ generation
-LIST_STEPS = ['L *= K2', 'L = L * K2', 'L *= K3', 'M = [1, 2, 3]\nM *= K3\nM *= K3', 'L *= KT', 'L.push({v})', 'push(L, {v})', 'L.insert({i}, {v})', 'L[{i}] = {v}', 'L[{i}] += {v}', 'L = L + L', 'L += L',
+LIST_STEPS = ['L = L + {v}', 'L = L + None', 'L = L + True', 'L = (L + 1) + 2', 'L = L + {{}}', 'L = rand(L, 25000)', 'L = rand([0], 1000000)', 'L *= K2', 'L = L * K2', 'L *= K3', 'M = [1, 2, 3]\nM *= K3\nM *= K3', 'L *= KT', 'L.push({v})', 'push(L, {v})', 'L.insert({i}, {v})', 'L[{i}] = {v}', 'L[{i}] += {v}', 'L = L + L', 'L += L',
               'L = L + [{v}, {v}]', 'L += [{v}]', 'L *= 2', 'L = L * 2', 'L += HL', 'L = HL + L', 'M = L', 'M += L',
               'M.push({v})', 'L += "{w}"', 'L += {{"p": 1, "q": 2}}', 'L = L[:]', 'L = L[1:] + L', 'L = reversed(L)',
               'L = sorted(L)', 'L = map(L, v => v)', 'L = filter(L, v => True)', 'L = values(D)', 'L = keys(D)',
@@ -305,7 +305,7 @@ def cases(draw):
 
 # builtin sweep: every entry of the LIVE function table applied to near-cap containers and to each other's results
 SWEEP_VARS = ['L', 'D', 'S', 'HL', 'HS', 'N', 'DN', 'K2', 'M']
-SWEEP_SCALARS = ['0', '1', '2', '","', '"a"', '""', 'True', 'None', 'v => v', '(a, b) => a + b', 'v => [v, v]', '(k, v) => [k, v]', 'v => True',
+SWEEP_SCALARS = ['25000', '1000000', '10001', '0', '1', '2', '","', '"a"', '""', 'True', 'None', 'v => v', '(a, b) => a + b', 'v => [v, v]', '(k, v) => [k, v]', 'v => True',
                  '[1, 2]', '{"p": 1}', '-1', '1.5']
 
 
